@@ -4,7 +4,7 @@ import json, os
 VERIF = os.path.dirname(os.path.dirname(os.path.dirname(os.path.abspath(__file__))))
 
 CLAIMS = {
- "C01": ("refusal gate bound to the FileDesc's own OTI/object (MPT+WMC); per-scheme capacity constants fit the wire field; partition call agreement and RFC 5052 closed forms; Z written >= 1; metadata flow object -> FDT File -> writer metadata; decoding parameters only from packet / FDT; BlockWriter byte accounting, MD5 switch order, no feeding of the inflater after the content length; receive-once decision table; receiver block addressing; close-object flag never premature",
+ "C01": ("refusal gate bound to the FileDesc's own OTI/object (MPT+WMC); per-scheme capacity constants fit the wire field; partition call agreement and RFC 5052 closed forms; Z written >= 1; metadata flow object -> FDT File -> writer metadata; decoding parameters only from packet / FDT; BlockWriter byte accounting, MD5 switch order, no feeding of the inflater after the content length; receive-once decision table; who may drop an entry of the receive-once registry (known finding F36 for ObjectsBeingTransferred FDTs); receiver block addressing; close-object flag never premature",
          "E2 structural rules over MIR (must-pass-through, who-may-call, slices, arm constants vs RFC widths), polynomial normal forms, E3 decision tables, E4 ranges",
          "byte-exact round trip, FEC/inflate/XML library behaviour and exactly-one-copy are NOT decided"),
  "C02": ("close-object flag accounts for every interleaved block, counts source symbols only (esi < k) and compares with the transfer length; symbol consumed before the flag acts, and the flag only ends an object that is attached to an FDT; duplicates neither overwrite nor count; decode thresholds over all orderings; the receiver's RS codec is built with the block's k and the OTI's parity count and symbol length; attach_fdt records the instance id before it opens the writer, replays the cached packets in reception order and flushes decoded blocks; the transfer counter behind the B flag counts completed transfers only",
